@@ -122,7 +122,7 @@ def replay(payload: dict):
 
 def run(tier: str, only: str | None = None) -> int:
     rep = runner.Report(PROP, tier)
-    items = c01.instances(tier)
+    items = [i for i in c01.instances(tier) if not i.get("pyopt")]
     if only:
         items = [i for i in items if only in f"{i['tree']}/{i['naming']}: {RuleSpec.from_json(i['spec']).label()}"]
     rep.bounds = {
